@@ -19,6 +19,7 @@ import (
 	"io"
 	"math"
 	"path/filepath"
+	"sort"
 	"strings"
 
 	"github.com/google/pprof/internal/measurement"
@@ -92,7 +93,19 @@ func ComposeDot(w io.Writer, g *Graph, a *DotAttributes, c *DotConfig) {
 	}
 
 	// Add edges to DOT builder. Sort edges by frequency as a hint to the graph layout engine.
-	for _, e := range edges.Sort() {
+	// Edges that compare equal (between identical nodes of a trimmed call tree)
+	// are ordered by node id, so that the output does not depend on map iteration.
+	sortedEdges := edgeList(edges.Sort())
+	sort.SliceStable(sortedEdges, func(i, j int) bool {
+		if less, greater := sortedEdges.Less(i, j), sortedEdges.Less(j, i); less != greater {
+			return less
+		}
+		if si, sj := nodeIDMap[sortedEdges[i].Src], nodeIDMap[sortedEdges[j].Src]; si != sj {
+			return si < sj
+		}
+		return nodeIDMap[sortedEdges[i].Dest] < nodeIDMap[sortedEdges[j].Dest]
+	})
+	for _, e := range sortedEdges {
 		builder.addEdge(e, nodeIDMap[e.Src], nodeIDMap[e.Dest], hasNodelets[e.Src])
 	}
 }
